@@ -25,15 +25,15 @@ Definition check (c : case) : N :=
   | CEnc p ie trailer id =>
     (* bit 0: model = implementation *)
     bit (res_eqb bytes_eqb (encode p) ie) 1
-    + match ie, id with
+    |+| match ie, id with
       | Ok bs, Some d => bit (res_eqb pn_eqb (with_left (decode_packet (bs ++ trailer) MaxMessageSize)) d) 1
       | _, _ => 0
       end
     (* bit 1: oracle - a well-formed value that fits is encoded as the standard says and
        decodes back to itself, leaving the trailer unread *)
-    + (if wf311 p && body_fits p then
+    |+| (if wf311 p && body_fits p then
          bit (res_eqb bytes_eqb ie (Ok (encode311 p))) 2
-         + match id with
+         |+| match id with
            | Some d => bit (res_eqb pn_eqb d (Ok (p, len trailer))) 4
            | None => 0
            end
@@ -43,9 +43,9 @@ Definition check (c : case) : N :=
   | CPaho p pb id ok =>
     bit (res_eqb pn_eqb (with_left (decode_packet pb MaxMessageSize)) id) 1
     (* bit 3 (8): the spec itself disagrees with paho - a defect of the spec, not of the broker *)
-    + (if wf311 p && body_fits p then
+    |+| (if wf311 p && body_fits p then
          bit (bytes_eqb pb (encode311 p)) 8
-         + bit (res_eqb pn_eqb id (Ok (p, 0))) 4
-         + bit ok 16
+         |+| bit (res_eqb pn_eqb id (Ok (p, 0))) 4
+         |+| bit ok 16
        else 0)
   end.
